@@ -26,6 +26,8 @@ type Parser struct {
 	errors      []ParseError
 	defaultYear int
 	inputLen    int
+	// txComments collects the indented comment lines of the transaction being parsed
+	txComments []ast.Comment
 }
 
 func Parse(input string) (*ast.Journal, []ParseError) {
@@ -138,6 +140,7 @@ func (p *Parser) parseTransaction() *ast.Transaction {
 		p.advance()
 	}
 
+	p.txComments = nil
 	for p.current.Type == TokenIndent {
 		posting := p.parsePosting()
 		if posting != nil {
@@ -147,6 +150,8 @@ func (p *Parser) parseTransaction() *ast.Transaction {
 			p.advance()
 		}
 	}
+	tx.Comments = append(tx.Comments, p.txComments...)
+	p.txComments = nil
 
 	tx.Range.End = toASTPosition(p.current.Pos)
 	return tx
@@ -244,7 +249,7 @@ func (p *Parser) parsePosting() *ast.Posting {
 	p.advance()
 
 	if p.current.Type == TokenComment {
-		p.parseComment()
+		p.txComments = append(p.txComments, p.parseComment())
 		return nil
 	}
 
